@@ -11,7 +11,7 @@ PID = "C03"
 LEVEL = "exploration"
 RULE = ("Hypothesis-generated systems (2-4 atom types, comb-rule 1/2, 1-3 molecule types of 1-8 residues with "
         "1-4 atoms and optional virtual site, linear/branched/ring, [molecules] lists with repeated names and "
-        "counts 1-3) x option sets (-box cubic/rectangular or -dens, -c/-mc full/partial, -gs, -grid, -sf, -mf, "
+        "counts 1-3) x option sets (-box cubic/rectangular or -dens or both, -c/-mc full/partial, -gs, -grid, -sf, -mf, "
         "-nr, -start, -res) x polyply RNG seed x (one case in three) a scripted pattern of rejected placement steps, "
         "complete structures that carry a small (<= 1.2 nm) cell, .pdb start structures with and without a CRYST1 record, and a flavour in which supplied and -res residues alternate along chains; the written .gro is parsed independently and compared with the "
         "expansion of [molecules] and with the expected box. non-trivial = (>=2 molecule types used or a "
